@@ -105,3 +105,35 @@ Proof.
   rewrite (Proofs2.roundtrip_2d _ _ rows Fs Fe Hne) in E3.
   eexists _, st1, st2. repeat split; [exact E1|exact E2|exact E3].
 Qed.
+
+(* ---- blocks of `_info_and_validate` under the glue of SrcRunV.v (`_partial`: see SrcRunV.v for what is glue) ------------ *)
+From PV Require Import C12.SrcRunV C12.TieVTac C12.TieVAli C12.TieVRef2 C12.TieValidate C12.TieValidateAll.
+
+Definition source_validate_is_model := src_validate_is_model.
+Definition source_step_is_model := step_tie.
+
+(* strict validation through the interpreted blocks accepts exactly the well-formed directories (and leaves them as they are) *)
+Theorem source_strict_accepts_iff_wellformed : forall c d,
+  Proofs.plain_yield c -> Spec.syms_nonneg c -> Spec.tokens_nonneg d -> Forall utt_stored_ok d ->
+  (src_validate c Model.FNone d = Some (d, None) <-> Spec.WellFormed d).
+Proof.
+  intros c d Hp Hs Ht Hd. rewrite (src_validate_is_model c Model.FNone d (proj2 Hp) Hd).
+  rewrite <- (Proofs.strict_accepts_iff c d Hp Hs Ht). split; [intros H; now inversion H|intros ->; reflexivity].
+Qed.
+
+(* strict validation never writes, whatever the outcome *)
+Theorem source_strict_never_writes : forall c d, Model.c_suppress_alis c = false -> Forall utt_stored_ok d ->
+  exists r, src_validate c Model.FNone d = Some (d, r).
+Proof.
+  intros c d Hs Hd. rewrite (src_validate_is_model c Model.FNone d Hs Hd).
+  pose proof (Proofs.strict_never_writes c d) as H. destruct (Model.validate c Model.FNone d) as [d' r]. cbn in H. subst. now exists r.
+Qed.
+
+(* with a tolerance: what the interpreted blocks leave on disk when they return is the documented repair, and it is valid *)
+Theorem source_fix_result_is_repair : forall c fa d d',
+  Proofs.plain_yield c -> Proofs.clean_writes c (Spec.tolerance fa) -> Forall utt_stored_ok d ->
+  src_validate c fa d = Some (d', None) -> d' = Spec.repair (Spec.tolerance fa) d /\ Spec.WellFormed d'.
+Proof.
+  intros c fa d d' Hp Hc Hd H. rewrite (src_validate_is_model c fa d (proj2 Hp) Hd) in H. inversion H as [H1].
+  apply (Proofs.validate_result c fa d d' Hp Hc H1).
+Qed.
